@@ -53,6 +53,7 @@ def main():
         for file_in in ([fn] if os.path.isfile(fn) else glob.iglob(fn)):
             if not os.path.isfile(file_in):
                 logger.error('Could not open file "%s"' % (file_in))
+                continue
 
             # no newline translation on the way through: CR and LF may be delimiters or data
             fd_out = tempfile.TemporaryFile(mode='w+', encoding='ascii', newline='')
